@@ -618,6 +618,16 @@ def run_streams(case):
     if k >= len(handles) or handles[k][1] is None:
       continue
     real, s = handles[k]
+    if kind == 'dev_wrte' and s['remote']:
+      owner = model.by_local(s['local'])
+      if owner is not None and owner is not s:
+        # The device would be writing to a stream that is gone and
+        # whose local id already belongs to a newer stream: the same
+        # unspecified situation as unread packets at an id reuse (see
+        # open_sent); the history ends here without a verdict.
+        model.poisoned = True
+        counters['histories_ended_by_stale_id_reuse'] = 1
+        break
     if kind == 'dev_wrte':
       if not s['remote']:
         continue
